@@ -18,6 +18,11 @@
    cclose, wgdone) are taken as soon as they are possible, in the code's order; rclose (observed negatively
    by a successful write) floats.  Every real behaviour remains accepted: these steps only set flags that
    nothing observes to be unset.
+   Second reduction: operations whose outcome does not depend on WHEN they happen once they are possible
+   (receives, reads, IterateInputs' goroutines and callback, DrDone, Finish: only this stage consumes its
+   input, and a closed/ended band stays so) are placed as early as possible (Eager); only the effects of
+   Put / WriteString, whose outcome (sent | reader gone) depends on the moment, and rclose float.  Taking a
+   value earlier only frees buffer space earlier, which enables nothing that a later Put could not do anyway.
    Cap is the measured capacity of the real channel (cap(fm.Port(1).Chan)); PCap is unbounded here (the
    OS pipe size is not part of the property). *)
 EXTENDS Pipeline, Json
@@ -44,10 +49,18 @@ EvStart == /\ Is("Start") /\ T.s \in Stages
                 /\ Logged(s) /\ fl[s] = "idle" /\ sg[s].st = "run" /\ Op(s).k = T.k /\ NeedsStart(s) /\ Op(s).v = T.v
                 /\ fl' = [fl EXCEPT ![s] = "started"]
            /\ l' = l + 1 /\ UNCHANGED <<pend, sel, sg, lk, gh, result>>
-Effect == \E s \in Stages :
-            /\ Logged(s) /\ sg[s].st = "run"
-            /\ fl[s] = (IF NeedsStart(s) THEN "started" ELSE "idle")
-            /\ Visible(s)
+PutLike(s) == PutSend(s) \/ PutStopped(s) \/ WriteB(s) \/ WriteEPIPE(s)
+NonPut(s) == GetV(s) \/ GetVClosed(s) \/ ReadB(s) \/ ReadEOF(s) \/ DrDeliverV(s) \/ DrDeliverB(s) \/ DrDone(s) \/ Finish(s)
+InputSide(s) == DrTakeV(s) \/ DrTakeB(s) \/ DrEndV(s) \/ DrEndB(s)
+FwdPut(s) == FwdSend(s) \/ FwdStopped(s)
+Effect == \E s \in Stages :          \* floating: the effect of a started Put / WriteString
+            /\ Logged(s) /\ sg[s].st = "run" /\ fl[s] = "started"
+            /\ PutLike(s)
+            /\ fl' = [fl EXCEPT ![s] = "eff"]
+            /\ UNCHANGED <<l, pend>>
+EagerEffect == \E s \in Stages :
+            /\ Logged(s) /\ sg[s].st = "run" /\ fl[s] = "idle"
+            /\ NonPut(s)
             /\ fl' = [fl EXCEPT ![s] = "eff"]
             /\ UNCHANGED <<l, pend>>
 EvEnd == /\ Is("End") /\ T.s \in Stages
@@ -58,9 +71,11 @@ EvEnd == /\ Is("End") /\ T.s \in Stages
 \* IterateInputs' reader goroutines run once the stage has entered the operation (its previous End is logged)
 Readers == \E s \in Stages :
              /\ Logged(s) /\ (fl[s] = "idle" \/ (fl[s] = "eff" /\ sg[s].last.k = "item"))
-             /\ Silent(s)
+             /\ InputSide(s)
              /\ UNCHANGED <<l, fl, pend>>
-Unlogged == \E s \in Stages : ~Logged(s) /\ StageAct(s) /\ UNCHANGED <<l, fl, pend>>
+Unlogged == \E s \in Stages : ~Logged(s) /\ (PutLike(s) \/ FwdPut(s)) /\ UNCHANGED <<l, fl, pend>>
+EagerUnlogged == \E s \in Stages : ~Logged(s) /\ (NonPut(s) \/ InputSide(s)) /\ UNCHANGED <<l, fl, pend>>
+Eager == EagerEffect \/ Readers \/ EagerUnlogged
 MayExit(s) == sg[s].st \notin {"run", "done"} /\ (Logged(s) => fl[s] = "ended")
 UrgentPh == {"ret", "serr", "stop", "gone", "wclose", "cclose", "wgdone"}
 Urgent(s) == MayExit(s) /\ sg[s].st \in UrgentPh
@@ -77,7 +92,8 @@ EvPipelineEnd == /\ Is("PipelineEnd") /\ ~pend /\ Final
                  /\ ResMatches /\ T.outv = gh.sentV[N] /\ T.outb = gh.sentB[N]
                  /\ pend' = TRUE /\ l' = l + 1 /\ UNCHANGED <<fl, sel, sg, lk, gh, result>>
 TNext == IF AnyUrgent THEN UrgentExit
-         ELSE EvReset \/ EvStart \/ Effect \/ EvEnd \/ Readers \/ Unlogged \/ FloatExit \/ Tail2 \/ EvPipelineEnd
+         ELSE IF ENABLED Eager THEN Eager
+         ELSE EvReset \/ EvStart \/ Effect \/ EvEnd \/ Unlogged \/ FloatExit \/ Tail2 \/ EvPipelineEnd
 TSpec == Init /\ [][TNext]_vars
 HW == TLCSet(1, IF TLCGet(1) > l THEN TLCGet(1) ELSE l)
 Accepted == PrintT(<<"HW", TLCGet(1)>>) /\ TLCGet(1) = Len(Trace) + 1
